@@ -1908,7 +1908,7 @@ func (d *DFA) SearchReverseLimited(cache *DFACache, haystack []byte, start, end,
 
 	currentState := d.getStartStateForReverse(cache, haystack, end)
 	if currentState == nil {
-		return d.nfaFallbackReverse(haystack, start, end)
+		return d.nfaFallbackReverseLimited(haystack, start, end, minStart)
 	}
 
 	lastMatch := -1
@@ -1941,11 +1941,11 @@ func (d *DFA) SearchReverseLimited(cache *DFACache, haystack []byte, start, end,
 		case InvalidState:
 			currentState = cache.getState(sid)
 			if currentState == nil {
-				return d.nfaFallbackReverse(haystack, start, end)
+				return d.nfaFallbackReverseLimited(haystack, start, end, minStart)
 			}
 			nextState, err := d.determinize(cache, currentState, b)
 			if err != nil {
-				return d.nfaFallbackReverse(haystack, start, end)
+				return d.nfaFallbackReverseLimited(haystack, start, end, minStart)
 			}
 			if nextState == nil {
 				return lastMatch
@@ -1994,8 +1994,7 @@ func (d *DFA) IsMatchReverse(cache *DFACache, haystack []byte, start, end int) b
 
 	currentState := d.getStartStateForReverse(cache, haystack, end)
 	if currentState == nil {
-		_, _, matched := d.pikevm.Search(haystack[start:end])
-		return matched
+		return d.nfaFallbackIsMatchReverse(haystack, start, end)
 	}
 
 	// With 1-byte match delay, start states are never match states.
@@ -2022,13 +2021,11 @@ func (d *DFA) IsMatchReverse(cache *DFACache, haystack []byte, start, end int) b
 		case InvalidState:
 			currentState = cache.getState(sid)
 			if currentState == nil {
-				_, _, matched := d.pikevm.Search(haystack[start:end])
-				return matched
+				return d.nfaFallbackIsMatchReverse(haystack, start, end)
 			}
 			nextState, err := d.determinize(cache, currentState, b)
 			if err != nil {
-				_, _, matched := d.pikevm.Search(haystack[start:end])
-				return matched
+				return d.nfaFallbackIsMatchReverse(haystack, start, end)
 			}
 			if nextState == nil {
 				return false
@@ -2124,12 +2121,108 @@ func (d *DFA) getStartStateForReverse(cache *DFACache, haystack []byte, end int)
 	return insertedState
 }
 
-// nfaFallbackReverse handles NFA fallback for reverse search.
+// nfaFallbackReverse handles NFA fallback for reverse search: it is called when
+// the reverse DFA gives up (cache full, determinization limit) and returns what
+// SearchReverse(haystack, start, end) would have returned.
 func (d *DFA) nfaFallbackReverse(haystack []byte, start, end int) int {
-	// For reverse fallback, we need to search the region and find match start
-	matchStart, _, matched := d.pikevm.Search(haystack[start:end])
-	if !matched {
+	return d.nfaFallbackReverseLimited(haystack, start, end, start)
+}
+
+// nfaFallbackReverseLimited is the NFA fallback of SearchReverseLimited: the result
+// of the reverse search over haystack[start:end] that does not scan below minStart
+// (SearchReverseLimitedQuadratic if the automaton is still alive there).
+//
+// The automaton of a reverse DFA is the REVERSE automaton: it has to be fed the
+// bytes haystack[end-1], haystack[end-2], ... and the result is the smallest
+// position s >= start such that it accepts haystack[end-1] ... haystack[s], i.e.
+// the leftmost start of a match of the forward pattern that ends exactly at end.
+// (The PikeVM cannot be used for this: it only reads a haystack forwards. Running
+// it over haystack[start:end], as this function used to do, matches the reversed
+// pattern against the un-reversed text.)
+//
+// The fallback therefore simulates the DFA without its cache: it starts from the
+// same start state and applies to the current set of NFA states exactly the
+// transition function that determinize memoises (look-ahead resolution, 1-byte
+// match delay, step), without a limit on the size of the set. The result is by
+// construction the one the DFA search loops compute. O((end-start) * states) time,
+// no cache memory; the state sets come from the package-level pool.
+func (d *DFA) nfaFallbackReverseLimited(haystack []byte, start, end, minStart int) int {
+	return d.reverseWalk(haystack, start, end, minStart, false)
+}
+
+// nfaFallbackIsMatchReverse is the NFA fallback of IsMatchReverse (see
+// nfaFallbackReverseLimited): true iff the reverse search over haystack[start:end]
+// reaches a match state at all.
+func (d *DFA) nfaFallbackIsMatchReverse(haystack []byte, start, end int) bool {
+	return d.reverseWalk(haystack, start, end, start, true) >= 0
+}
+
+// reverseWalk is the uncached reverse search behind the reverse NFA fallbacks (see
+// nfaFallbackReverseLimited). With earliest set it returns at the first match
+// state (IsMatchReverse) instead of looking for the leftmost start.
+func (d *DFA) reverseWalk(haystack []byte, start, end, minStart int, earliest bool) int {
+	if end <= start || end > len(haystack) {
 		return -1
 	}
-	return start + matchStart
+
+	builder := NewBuilderWithWordBoundary(d.nfa, d.config, d.hasWordBoundary)
+
+	// Start state: same configuration as getStartStateForReverse.
+	kind := StartText
+	if end < len(haystack) {
+		kind = d.startByteMap[haystack[end]]
+	}
+	startState, _ := d.computeStartState(StartConfig{Kind: kind, Anchored: false})
+	states := startState.NFAStates()
+	lookHave := startState.lookHave
+	isFromWord := startState.IsFromWord()
+
+	lowerBound := start
+	if minStart > lowerBound {
+		lowerBound = minStart
+	}
+
+	lastMatch := -1
+	for at := end - 1; at >= lowerBound; at-- {
+		b := haystack[at]
+
+		// The body of determinize, minus the cache.
+		resolved := states
+		if d.hasWordBoundary || (d.hasEndLine && b == '\n') {
+			resolved = builder.resolveLookAhead(states, lookHave, isFromWord, b)
+		}
+		sourceHasMatch := builder.containsMatchState(resolved)
+		next := builder.step(resolved, b, sourceHasMatch && d.config.BreakAtMatch)
+
+		// 1-byte match delay: the state after this byte is a match state iff the
+		// source set contains a match; the search loops then record at+1.
+		if sourceHasMatch {
+			lastMatch = at + 1
+			if earliest {
+				return lastMatch
+			}
+		}
+		if len(next) == 0 {
+			// Dead state (after a dead-end match state, if sourceHasMatch).
+			return lastMatch
+		}
+
+		states = next
+		isFromWord = isWordByte(b)
+		lookHave = LookNone
+		if b == '\n' {
+			lookHave = LookStartLine & d.lookBehindMask
+		}
+	}
+
+	// EOI for reverse: delayed match at the region start.
+	if containsNFAMatch(d.nfa, states) {
+		lastMatch = lowerBound
+	}
+
+	// Cut short by minStart while still alive: same contract as SearchReverseLimited.
+	if lowerBound > start {
+		return SearchReverseLimitedQuadratic
+	}
+	return lastMatch
 }
